@@ -227,6 +227,33 @@ def bounded(arg):
                                      'count': cnt})
         if len(failures) > 200:
             break
+    # a question about explicitly given code is answered from THAT code, also after the submission has been verified
+    from pedal.source import verify
+    from pedal.cait.cait_api import find_asts
+    plist = list(programs(12, seed + 1))
+    for i, sub in enumerate(plist):
+        try:
+            ast.parse(sub)
+        except SyntaxError:
+            continue
+        clear_report()
+        contextualize_report(sub)
+        verify()
+        parse_program()
+        for other in plist[:i] + plist[i + 1:][:3]:
+            try:
+                want = ast.parse(other)
+            except SyntaxError:
+                continue
+            evaluations += 1
+            got = parse_program(other)
+            if ast.dump(got.astNode) != ast.dump(want):
+                failures.append({'id': 'explicit_code', 'program': other, 'submission': sub,
+                                 'detail': 'parse_program(code) returned the tree of another program'})
+            n_calls = len([n for n in ast.walk(want) if isinstance(n, ast.Call)])
+            if len(find_asts('Call', other)) != n_calls:
+                failures.append({'id': 'explicit_code', 'program': other, 'submission': sub,
+                                 'detail': 'find_asts("Call", code) found %d nodes, the code has %d' % (len(find_asts('Call', other)), n_calls)})
     clear_report()
     return {'name': 'B-findall', 'bound': '%d generated programs of <= 6 statements (seed %d); every documented operator '
             'symbol, 11 call names, 17 node kinds, 4 modules, 6 literal types, 7 literal values; thresholds '
